@@ -30,7 +30,7 @@ def generate(rng, tier):
         A32 = A.to_bytes(32, "little")
         salt, b, chal = special32(rng), special32(rng), rbytes(rng, 16)
         if pyref.server_B(v, pyref.le(b)) == 0: continue
-        m1 = rbytes(rng, 20)
+        m1 = rbytes(rng, 20) if rng.random() < 0.8 else rng.choice([bytes(20), b"\xff" * 20, bytes(19) + b"\x01", b"\x01" + bytes(19)])   # constant proofs too
         from props.c02 import server_expect
         cs.append(Case("srv.server %s %s %s %s %s | %s%s" % (enc(us), le32(v).hex(), salt.hex(), A32.hex(), m1.hex(), b.hex(), chal.hex()), "server-adversarial-A-M1", no_panic))
     # client: values that drive intermediate results to 0, 1, N-1
@@ -52,7 +52,7 @@ def generate(rng, tier):
         if e is None: continue
         base = "%s %s 7 %s %s %s" % (enc(us), enc(ps), N_LE.hex(), B32.hex(), salt.hex())
         cs.append(Case("cli.new %s | %s" % (base, a.hex()), kind, no_panic))
-        m2 = rbytes(rng, 20) if rng.random() < 0.7 else e["M2"]
+        m2 = rbytes(rng, 20) if rng.random() < 0.6 else e["M2"] if rng.random() < 0.7 else rng.choice([bytes(20), b"\xff" * 20])
         cs.append(Case("cli.verify %s %s | %s" % (base, m2.hex(), a.hex()), kind + "-verify", no_panic))
     # reconnect garbage
     for _ in range(n // 3):
@@ -63,7 +63,7 @@ def generate(rng, tier):
     # world login garbage
     for _ in range(n // 3):
         exp = rng.choice("vtw")
-        cs.append(Case("world.srv %s %s %s %s %d | %s" % (exp, enc(cred(rng)), special_key(rng).hex(), rbytes(rng, 20).hex(), rng.choice([0, 0xFFFFFFFF, rng.getrandbits(32)]), rbytes(rng, 4).hex()),
+        cs.append(Case("world.srv %s %s %s %s %d | %s" % (exp, enc(cred(rng)), special_key(rng).hex(), (rbytes(rng, 20) if rng.random() < 0.8 else rng.choice([bytes(20), b"\xff" * 20])).hex(), rng.choice([0, 0xFFFFFFFF, rng.getrandbits(32)]), rbytes(rng, 4).hex()),
                        "world-garbage-" + exp, no_panic))
     # header garbage, any order and amount
     for _ in range(n):
